@@ -190,3 +190,9 @@ func vfMatchErr(i int) bool       { return false }
 // vfHoldTimers keeps time.AfterFunc callbacks from firing until vfReleaseTimers (engine only).
 func vfHoldTimers()    {}
 func vfReleaseTimers() {}
+
+// vfStubCalls: number of recorded calls of a memberlist lifecycle stub ("Join", "Leave", "Shutdown") (engine only)
+func vfStubCalls(name string) int { return 0 }
+
+// vfQuietLock: operations on this mutex are not pre-emption points (engine only).
+func vfQuietLock(p any) {}
